@@ -49,6 +49,7 @@ THEOREMS = ["PorepyVerif.C17." + t for t in (
     "transport_maximum_principle_checked",
     "md_transport_conserves_checked",
     "darcy_flux_divergence_free",
+    "assemble_matvec",
 )]
 LEAN_MODULES = ["PorepyVerif.C17.Props"]
 AUDIT = "PorepyVerif/C17/Audit.lean"
